@@ -100,7 +100,7 @@ def check_pipelines(rep, prog, fm, cfg):
         c = I.new("pel.peltool.config.Config")
         args = [st, c] + ([Const(False)] if fn == "parsePEL" else [])
         r = I.call(PT + fn, args)
-        seq = [e for e in I.events if e.kind == "opaquecall" and e.func == PT + fn and e.data[0] in (PT + "generatePH", PT + "generateUH", PT + "considerPEL")]
+        seq = [e for e in I.events if e.kind == "opaquecall" and e.data[0] in (PT + "generatePH", PT + "generateUH", PT + "considerPEL")]
         names = [e.data[0].split(".")[-1] for e in seq]
         ok = names == ["generatePH", "generateUH", "considerPEL"]
         if ok:
